@@ -1,11 +1,28 @@
 (* C02 - Stored bytes are always the canonical serialization, with exact length.  Statements only.
    FULL statement: in every reachable state of every history on every shape, firstn len mem = encode value and
-   len = byte_size value.  PROVED: for flat shapes (see C01.v for the fragment) as an invariant of all histories;
+   len = byte_size value.  PROVED: for EVERY enum-free shape and every history of list operations at any nesting depth,
+   failing operations included (C02_general_..., lists and maps of unsized elements with their offset tables,
+   unsized_size and trailing length copy); for flat shapes (the earlier special case) as an invariant of all histories;
    for ALL shapes: canonical encodings are unique (any other reader sees the same value) and their size is
    the announced one.  Lists of unsized elements (offset table, unsized_size, trailing length copy) are tied by
    the correspondence check, which compares the account bytes with from_owned(value) after every step. *)
 From SF Require Import Base.Prelude Gen.Generated Unsized.Types Unsized.Parse Unsized.Machine Unsized.Ops.
 From SF Require Import Unsized.Proofs.EncodeParse Unsized.Proofs.Flat.
+From SF Require Import Unsized.Proofs.Layout Unsized.Proofs.Path Unsized.Proofs.Resize Unsized.Proofs.History.
+
+(* any shape, any depth, any history (operations that fail leave the value alone): the stored bytes are the canonical
+   serialization of the owned model's value, with exact length *)
+Theorem C02_general_canonical_after_any_history :
+  forall ovf t h v s top pi0 v' l,
+    RepF pi0 t v s top -> m_refuse s <> 1 -> orunE (m_cap s) (m_refuse s) t v h = Some (v', l) ->
+    exists s' top', mrunE ovf t s top h = Ok (s', top', l) /\
+      ztake (m_len s') (m_mem s') = encode t v' /\ m_len s' = byte_size t v'.
+Proof.
+  intros ovf t h v s top pi0 v' l R Hn Ho.
+  destruct (grunE_refines ovf t h v s top pi0 v' l R Hn Ho) as (s' & top' & pi' & Hrun & R').
+  exists s', top'. split; [exact Hrun|].
+  destruct (repf_observable ovf pi' t v' s' top' R') as (_ & Hb & Hl & _). auto.
+Qed.
 
 Theorem C02_flat_canonical_after_any_history :
   forall ts h vs s top vs',
